@@ -266,6 +266,66 @@ fn run_cfg(cfg: &Config, acc: &mut Acc) {
     }
 }
 
+// ------------------------------------------------------------------------- L1 slice
+// The same oracle through a real connection: binds Request::respond's use of raw_print
+// (HEAD suppression, flush, HTTP version of the request) to the L0 product above.
+
+const L1_STATUSES: [u16; 12] = [200, 201, 204, 205, 299, 300, 304, 400, 404, 500, 599, 999];
+const L1_LENGTHS: [usize; 4] = [0, 5, 8193, 40000];
+
+fn l1_space() -> Space {
+    // status x length x declared x method(GET/HEAD) x version x TE(absent/chunked/identity)
+    Space::new(&[L1_STATUSES.len(), L1_LENGTHS.len(), 2, 2, 2, 3])
+}
+
+fn l1_run(idx: u64, acc: &mut Acc, replaying: bool) {
+    use crate::judge::{judge_conn, JudgeOpts};
+    use crate::runner::*;
+    use tiny_http::verif_rt::core::RunCfg;
+    let d = l1_space().decode(idx);
+    let (status, len, declared, head, v11, te) = (L1_STATUSES[d[0]], L1_LENGTHS[d[1]], d[2] == 0, d[3] == 1, d[4] == 1, d[5]);
+    let mut req = format!("{} /l1 HTTP/{}\r\nHost: t\r\n", if head { "HEAD" } else { "GET" }, if v11 { "1.1" } else { "1.0" });
+    if !v11 {
+        req.push_str("Connection: keep-alive\r\n");
+    }
+    match te {
+        1 => req.push_str("TE: chunked\r\n"),
+        2 => req.push_str("TE: identity\r\n"),
+        _ => (),
+    }
+    req.push_str("\r\n");
+    let mut bytes = req.into_bytes();
+    // a second request shows that the client knew where the first response ended
+    bytes.extend_from_slice(b"GET /after HTTP/1.1\r\nHost: t\r\n\r\n");
+    let plans = vec![
+        ReqPlan { read: ReadPlan::None, finish: Finish::Respond(RespSpec { status, body_len: len, declared, threshold: None }) },
+        ReqPlan::simple(),
+    ];
+    let sc = Scenario::one_conn(vec![bytes], AppProgram::with_plans(plans));
+    let (obs, res) = run_scenario(&sc, &RunCfg { trace: replaying, ..RunCfg::default() });
+    let (fails, _) = judge_conn(&sc, &obs, &res, &JudgeOpts::default());
+    acc.evals += 1;
+    acc.execs += 1;
+    acc.points += res.points;
+    acc.leaked_threads += res.leaked_threads as u64;
+    if len > 0 {
+        acc.nontrivial += 1;
+    }
+    acc.count("through_a_real_connection", 1);
+    for f in fails {
+        if f.clause == "machinery" {
+            acc.machinery_errors.push(f.desc);
+            continue;
+        }
+        let class = if head { "head" } else if status == 204 || status == 304 { "nobody-status" } else if v11 { "http11" } else { "http10" };
+        acc.violation(
+            &format!("connection:{}:{}", f.clause, class),
+            format!("[{}] {} (status {}, length {}, declared {}, HEAD {}, HTTP/1.{}, TE kind {})", f.clause, f.desc, status, len, declared, head, v11 as u8, te),
+            json!({"l1_index": idx, "scenario": scenario_json(&sc)}),
+        );
+    }
+}
+
 impl Check for C04 {
     fn id(&self) -> &'static str {
         "C04"
@@ -274,18 +334,23 @@ impl Check for C04 {
         "exploration"
     }
     fn n_items(&self, tier: Tier) -> u64 {
-        space(tier).size()
+        space(tier).size() + l1_space().size()
     }
     fn chunk(&self, _tier: Tier) -> u64 {
-        5_000
+        2_000
     }
     fn run_item(&self, idx: u64, tier: Tier, acc: &mut Acc) {
-        run_cfg(&decode(idx, tier), acc);
+        let n0 = space(tier).size();
+        if idx < n0 {
+            run_cfg(&decode(idx, tier), acc);
+        } else {
+            l1_run(idx - n0, acc, false);
+        }
     }
     fn rule(&self, tier: Tier) -> String {
         format!(
-            "full product status{:?} x body length{:?} x declared/undeclared x threshold{{0,1,len-1,len,len+1,default,usize::MAX}} x version{{1.0,1.1}} x HEAD/GET x TE{:?} x reader piece size{:?} (0=whole, max=irregular cycle) x extra headers 0..{} = {} responses printed by Response::raw_print; each output must be consumed exactly by the independent RFC 7230 client parser, which must recover the status and exactly the body; non-trivial = body length > 0",
-            STATUSES, lengths(tier), TES, pieces(tier), if tier == Tier::Quick { 1 } else { 2 }, space(tier).size()
+            "full product status{:?} x body length{:?} x declared/undeclared x threshold{{0,1,len-1,len,len+1,default,usize::MAX}} x version{{1.0,1.1}} x HEAD/GET x TE{:?} x reader piece size{:?} (0=whole, max=irregular cycle) x extra headers 0..{} = {} responses printed by Response::raw_print; each output must be consumed exactly by the independent RFC 7230 client parser, which must recover the status and exactly the body; plus {} responses sent through a real connection (status x length {{0,5,8193,40000}} x declared/undeclared x GET/HEAD x HTTP/1.0 keep-alive/1.1 x TE absent/chunked/identity, followed by a second request whose answer must be found right after); non-trivial = body length > 0",
+            STATUSES, lengths(tier), TES, pieces(tier), if tier == Tier::Quick { 1 } else { 2 }, space(tier).size(), l1_space().size()
         )
     }
     fn assumptions(&self) -> Vec<String> {
@@ -295,6 +360,10 @@ impl Check for C04 {
         ]
     }
     fn replay(&self, replay: &Value, acc: &mut Acc) {
+        if let Some(i) = replay["l1_index"].as_u64() {
+            l1_run(i, acc, true);
+            return;
+        }
         let cfg = Config::from_json(&replay["config"]);
         acc.notes.insert(format!("replaying {}", cfg.to_json()));
         run_cfg(&cfg, acc);
